@@ -2,8 +2,8 @@ SPECIFICATION Spec
 CONSTANTS
   Window = 1
   AddStateFix = TRUE
-  MaxH = 2
-  MaxOps = 3
+  MaxH = 3
+  MaxOps = 2
   MaxSnaps = 1
   MaxFaults = 1
   Slots = {"a1/bal", "a1/s/k", "a1/s/k1"}
